@@ -51,9 +51,10 @@ ASSUMPTIONS = [
     "nested in a run of its own kind; literal [[ is never followed by ]] in one document (documents with literal openers "
     "have no links and no openers inside brace arguments); a leading-blank line is followed by a list/rule/heading or "
     "nothing and never directly follows a heading (the parser otherwise keeps later lines and tables inside PREFORMATTED, "
-    "or does not see the line as preformatted at all); a ||-style cell never follows a cell containing '=' (C03 finding); a link whose target holds protected ]] has "
-    "at most a plain-word label (with a template or more protected brackets in the label the parser does not recognise "
-    "the link, leaving a loose |)",
+    "or does not see the line as preformatted at all); a ||-style cell never follows a cell containing '=' (C03 finding); a link with protected bracket text (in its label, at the end "
+    "of its label, or in its target) has exactly one such element and otherwise plain words, and is not generated inside "
+    "tables (with a template, a second [..] or more protected brackets after a protected pair the parser does not "
+    "recognise the link, leaving a loose | that splits a table cell in the middle of bold/italic)",
     "mechanism names come from compensating re-serialisations through node_handler_fn (own code); they only NAME a "
     "failure that the plain relation found, they never decide one",
     "per-case CPU budget 30 s (ITIMER_VIRTUAL) stands for 'returns'",
